@@ -124,7 +124,7 @@ func checkMain(args []string) int {
 	var assumedContracts []string
 	for _, name := range C.Order {
 		con := C.Funcs[name]
-		if !hasProp(con.Props, prop) {
+		if !hasProp(con.Props, prop) && !hasProp(con.Safety, prop) && !hasProp(con.AllocProps, prop) {
 			continue
 		}
 		if con.Assumed {
